@@ -92,8 +92,16 @@ impl Payload for &ZElem {
     fn forget(self) {}
 }
 
-#[derive(Clone, Copy, Debug)]
+/// `Copy` element with a hand-written, observable `Clone`: a `copied()` adaptor copies bits and never calls it
+#[derive(Copy, Debug)]
 pub struct CElem(pub u64);
+
+impl Clone for CElem {
+    fn clone(&self) -> Self {
+        tlog!("clonecopy {}", self.0);
+        CElem(self.0)
+    }
+}
 
 /// Access to the payload of whatever the iterator under test yields.
 pub trait Payload {
@@ -215,6 +223,18 @@ impl ProbeCore {
                 (k, Some(k))
             }
             Hint::Inexact => (0, Some(1_000_000)),
+            Hint::PanicEnd => {
+                let all = self
+                    .script
+                    .iter()
+                    .take_while(|e| matches!(e, Entry::S(_)))
+                    .count();
+                if rt::tid() != NO_TID && !rt::silent() && self.produced >= all {
+                    set_track(false);
+                    std::panic::panic_any(ProbePanic);
+                }
+                (0, Some(1_000_000))
+            }
             Hint::Upper => {
                 let k = self
                     .script
